@@ -323,7 +323,9 @@ class Renderer:
         elif k == "assign":
             self.expr(e.l, glue); self.t("="); self.expr(e.r)
         elif k == "bin":
-            self.expr(e.l, glue); self.t(e.op); self.expr(e.r)
+            self.expr(e.l, glue); self.t(e.op)
+            if getattr(e, "brk", False): self.brk()
+            self.expr(e.r)
         elif k == "mref":
             self.expr(e.e, glue); self.t("::", True); self.t(e.name, True)
         elif k == "paren":
